@@ -49,6 +49,8 @@ def run(ctx):
     vh = VH(vh_bin(), locklog=os.path.join(ctx.scratch_root, "lock_vh.log"))
     try:
         pinned(ctx, vh)
+        if os.environ.get("VERIF_ONLY_PINNED"):
+            return
         for i in range(n):
             root = ctx.scratch(f"w{i}")
             ws = gen.gen_workspace(root, ctx.rng, venv=(i % 4 == 0), allow_imports=(i % 2 == 0), depth=ctx.rng.randint(2, 4))
